@@ -50,6 +50,7 @@ def cmd_import(prop, letter):
 
 def cmd_confirm(mid):
     d = os.path.join(SEEDED, mid)
+    flags = load_meta(mid).get("demo_flags", "")
     wt = "/tmp/mconf-%d" % os.getpid()
     rc, out = sh(["git", "-C", "/repo", "worktree", "add", "-q", "--detach", wt, "HEAD"])
     if rc != 0:
@@ -63,11 +64,11 @@ def cmd_confirm(mid):
         rc, out = sh("go build ./... && go vet -vet=off . ; go test -count=1 ./...", cwd=wt)
         res["existing_suite_passes_with_patch"] = rc == 0 and "FAIL" not in out
         shutil.copy(os.path.join(d, "demo_test.go"), os.path.join(wt, "zz_demo_test.go"))
-        rc, out = sh("go test -count=1 ./...", cwd=wt)
+        rc, out = sh("go test %s -count=1 ./..." % flags, cwd=wt)
         res["demo_fails_with_patch"] = rc != 0
         res["demo_output_with_patch"] = out[-1500:]
         sh(["git", "checkout", "--", "."], cwd=wt)
-        rc, out = sh("go test -count=1 ./...", cwd=wt)
+        rc, out = sh("go test %s -count=1 ./..." % flags, cwd=wt)
         res["demo_passes_without_patch"] = rc == 0
     finally:
         sh(["git", "-C", "/repo", "worktree", "remove", "--force", wt])
